@@ -35,6 +35,8 @@ fn timeout_of(per_request: bool, key: u8) -> u64 {
         30
     } else if per_request && key == 2 {
         UNBOUNDED
+    } else if per_request && key == 3 {
+        0
     } else {
         20
     }
@@ -98,7 +100,7 @@ impl Scenario for Tl {
     }
     fn arrive_variants(&self, _w: &World, _x: &X, _c: usize) -> Vec<u8> {
         if self.per_request {
-            vec![0, 1, 2]
+            vec![0, 1, 2, 3]
         } else {
             vec![0]
         }
